@@ -2,6 +2,7 @@ package model
 
 import (
 	"fmt"
+	"sort"
 	"strings"
 
 	"verifsim/sdl"
@@ -300,27 +301,43 @@ func (w *World) CheckEarlyOnce(o *Obs) []Violation {
 			}
 		}
 	}
+	// indexes by component name (long runs have thousands of attempts: no rescans per attempt)
+	type earlyEv struct {
+		seq  int
+		proc string
+	}
+	earlies := map[string][]earlyEv{}
+	for _, e := range o.Events {
+		if e.Kind == "early" {
+			if p, n := procOf(e.Subj); n != "" {
+				earlies[n] = append(earlies[n], earlyEv{e.Seq, p})
+			}
+		}
+	}
+	failedEfx := map[string][]int{}
+	for _, c := range o.Reg {
+		if c.Op == "efx" && c.Err {
+			failedEfx[c.Name] = append(failedEfx[c.Name], c.Seq)
+		}
+	}
 	for _, name := range sdl.SortedKeys(attempts) {
 		if w.instByName(name) == "" {
 			continue
 		}
+		evs, fx := earlies[name], failedEfx[name]
 		for _, a := range attempts[name] {
 			cnt := map[string]int{}
-			for _, e := range o.Events {
-				if e.Kind != "early" || e.Seq < a.from || e.Seq > a.to {
-					continue
-				}
-				if p, n := procOf(e.Subj); n == name {
-					cnt[p]++
-				}
+			for i := sort.Search(len(evs), func(i int) bool { return evs[i].seq >= a.from }); i < len(evs) && evs[i].seq <= a.to; i++ {
+				cnt[evs[i].proc]++
+			}
+			if len(cnt) == 0 {
+				continue
 			}
 			// an invocation of the early-reference factory that ended in an error produced nothing;
 			// the next request runs it again
 			failedRuns := 0
-			for _, c := range o.Reg {
-				if c.Op == "efx" && c.Name == name && c.Err && c.Seq >= a.from && c.Seq <= a.to {
-					failedRuns++
-				}
+			for i := sort.SearchInts(fx, a.from); i < len(fx) && fx[i] <= a.to; i++ {
+				failedRuns++
 			}
 			for _, p := range sdl.SortedKeys(cnt) {
 				if cnt[p] > 1+failedRuns {
